@@ -1,5 +1,11 @@
 //! Per-property monitors: pure functions over the recorded execution.
 pub mod c01;
+pub mod c02;
+pub mod c03;
+pub mod c05;
+pub mod c06;
+pub mod c07;
+pub mod c18;
 
 use crate::exec::*;
 use crate::world::*;
